@@ -61,7 +61,7 @@ def value_expr(view, acc, ty):
     if t == 'Vec<Sha1Checksum>': return 'vec![Sha1Checksum { sha1: "da39a3ee".into(), size: 3, filename: "f_1.dsc".into() }]', None
     if t == 'Vec<Sha256Checksum>': return 'vec![Sha256Checksum { sha256: "e3b0c442".into(), size: 3, filename: "f_1.dsc".into() }]', None
     if t == 'Vec<Sha512Checksum>': return 'vec![Sha512Checksum { sha512: "cf83e135".into(), size: 3, filename: "f_1.dsc".into() }]', None
-    if t == 'chrono::DateTime<chrono::FixedOffset>': return 'chrono::DateTime::parse_from_rfc2822("Sat, 03 Oct 2026 09:00:00 +0000").unwrap()', None
+    if t == 'chrono::DateTime<chrono::FixedOffset>': return 'chrono::DateTime::parse_from_rfc2822("Sat, 03 Oct 2026 09:00:00 +0200").unwrap()', None
     if t == 'chrono::NaiveDate': return 'chrono::NaiveDate::from_ymd_opt(2020, 1, 2).unwrap()', None
     if t == 'std::collections::HashMap<String,String>': return '[("LANG".to_string(), "C.UTF-8".to_string())].into_iter().collect::<std::collections::HashMap<String, String>>()', None
     if t == '&License': return '&License::Name("MIT".to_string())', None
